@@ -21,7 +21,11 @@ pub struct QueueReader<'a, T: Read + Seek> {
     buffer_sizes: Vec<usize>,
     byte_streams: Vec<ByteStreamReadBuffer>,
     queues: Vec<VecDeque<RecordValue>>,
+    all_zero_bits: bool,
 }
+
+/// Number of points generated per step for point clouds that do not store any bits per point.
+const GENERATED_POINTS_PER_STEP: usize = 1024;
 
 impl<'a, T: Read + Seek> QueueReader<'a, T> {
     pub fn new(pc: &PointCloud, reader: &'a mut PagedReader<T>) -> Result<Self> {
@@ -33,7 +37,12 @@ impl<'a, T: Read + Seek> QueueReader<'a, T> {
             .seek_physical(section_header.data_offset)
             .read_err("Cannot seek to packet header")?;
 
+        // If all records have a fixed value (min == max) there is nothing stored per point
+        let all_zero_bits = !pc.prototype.is_empty()
+            && pc.prototype.iter().all(|r| r.data_type.bit_size() == 0);
+
         Ok(Self {
+            all_zero_bits,
             pc: pc.clone(),
             reader,
             buffer: Vec::new(),
@@ -74,6 +83,13 @@ impl<'a, T: Read + Seek> QueueReader<'a, T> {
 
     /// Reads the next packet from the compressed vector and decodes it into the queues.
     pub fn advance(&mut self) -> Result<()> {
+        // Point clouds without any stored bits per point have no data to read.
+        // All values are defined by the prototype and are generated in bounded steps.
+        if self.all_zero_bits {
+            let target = self.available() + GENERATED_POINTS_PER_STEP;
+            return self.parse_byte_streams(target);
+        }
+
         let packet_header = PacketHeader::read(self.reader)?;
         match packet_header {
             PacketHeader::Index(header) => {
